@@ -146,6 +146,20 @@ WorldSpec gen_world(const std::string& prop, uint64_t run_seed, const GenOpts& o
         if (r.chance(0.3)) w.variant |= 16;
         if (r.chance(0.3)) w.variant |= 32;
     }
+    // sparse storage usually holds sparse matrices: SparseLU / SimplicialLDLT orderings, supernodes and pivot sequences
+    // only depend on the call history when the pattern is genuinely sparse (a dense matrix stored as sparse factorizes
+    // identically whatever the solver's mode). Decided from a separate stream so that no other draw of the world moves.
+    {
+        Rng r2 = stream(run_seed, "world-sparsity");
+        const bool lu_family = (w.family == F_SYMSHIFT || w.family == F_GENRSHIFT || w.family == F_GSHIFTINV || w.family == F_GBUCK ||
+                                w.family == F_GCAYLEY);
+        const bool both = !family_has_B(w.family) || (w.variant & 2);
+        if (lu_family && (w.variant & 1) && both && w.mclass != M_BLOCKDIAG && w.mclass != M_LOWRANK && r2.chance(0.6))
+        {
+            w.mclass = M_SPARSEPAT;
+            if (w.n < 30 && r2.chance(0.5)) w.n = 30 + (int) r2.below((uint64_t) (nmax - 29));
+        }
+    }
     // ---- B ----
     if (family_has_B(w.family))
     {
@@ -387,7 +401,15 @@ Plan gen_sched_plan(uint64_t run_seed, const GenOpts& o)
     static const double ps[] = {0.02, 0.1, 0.5};
     p.policy_p = ps[r.below(3)];
     p.sched_seed = r.next();
+    // half of the runs additionally pre-empt at seeded basic-block edges inside the library code (log-uniform mean gap)
+    if (!o.no_edge_preemption && r.chance(0.5)) p.edge_gap = (long) std::llround(std::pow(10.0, 2.0 + 3.0 * r.real01()));
     const bool shared = r.chance(0.4);
+    // hidden shared state is typically per template instantiation and often guarded by a size threshold ("larger than a
+    // page"): a share of the runs puts solvers of ONE family side by side, and a share uses worlds whose work arrays
+    // exceed a few kilobytes (n up to 64, nev up to 10)
+    const bool same_family = !shared && r.chance(0.4);
+    const bool big = r.chance(0.15);
+    if (big && T > 3) T = 2 + (int) r.below(2);
     GenOpts g = o;
     g.thorough = false;
     TaskSpec first;
@@ -409,9 +431,20 @@ Plan gen_sched_plan(uint64_t run_seed, const GenOpts& o)
         else
         {
             if (shared) { static const int sf[] = {F_SYM, F_GEN, F_HERM}; g.force_family = sf[r.below(3)]; }
-            else g.force_family = o.force_family;
+            else g.force_family = (same_family && t > 0) ? first.w.family : o.force_family;
             ts.w = gen_world("C20", sub, g);
-            if (ts.w.n > 30)
+            if (big)
+            {
+                Rng rb = stream(sub, "big-world");
+                const int gen = family_is_general(ts.w.family) ? 1 : 0;
+                ts.w.n = 40 + (int) rb.below(25);
+                ts.w.nev = 4 + (int) rb.below(7);
+                ts.w.ncv = std::min(ts.w.n, std::max(min_ncv(ts.w.family, ts.w.nev), 2 * ts.w.nev + 1 + (int) rb.below(8)));
+                ts.w.nev = std::min(ts.w.nev, ts.w.ncv - 1 - gen);
+                if (ts.w.mclass == M_BLOCKDIAG) ts.w.nblock = std::min(ts.w.nblock, ts.w.n - 1);
+                if (ts.w.mclass == M_LOWRANK) ts.w.rank = std::min(ts.w.rank, ts.w.n);
+            }
+            else if (ts.w.n > 30)
             {
                 ts.w.n = 30;
                 ts.w.ncv = std::min(ts.w.ncv, ts.w.n);
